@@ -11,9 +11,9 @@ TRUSTED = [
 ASSUMPTIONS = [
     "counts are non-negative (they only ever grow by +1 in handle, proved) ",
     "a type both waived by name and given a numeric limit is excluded (the property leaves it unspecified)",
-    "maxwarn() (string parsing) and the CLI wiring are decided by the bounded layer only",
+    "the wiring of the handler into the logging stack is exercised by the bounded layer only",
 ]
-NOT_PROVED = ["bin/martinize2::maxwarn (bounded: every string of length <= 4 over {a,1,:,-})"]
-EXPLANATION = ("handle, number_of_counts_by and ignore_warnings_and_count proved for all inputs against the statement "
+NOT_PROVED = []
+EXPLANATION = ("handle, number_of_counts_by, ignore_warnings_and_count and maxwarn proved for all inputs against the statement "
                "of C08 (nested loop invariants with ghost witnesses, one induction lemma); the caller uses the callee's "
                "contract, not its body")
